@@ -7,6 +7,7 @@ import JSight.SchemaLen
 import JSight.SchemaLenExamples
 import JSight.SchemaLenTokEof
 import JSight.SchemaLenAnnShortcut
+import JSight.DocCorollaries
 /-!
 # C14 — Len reports exactly where an embedded JSON document ends
 
@@ -256,3 +257,49 @@ example : length (renderEnumC xPre xWs0 xItems xPost) = .ok (rtrimB (renderEnumC
   C14_enum_len_with_comments xPre xWs0 xPost xItems xPre_ws xWs0_valid xPost_valid xItems_valid (by decide)
 
 end Props.C14
+
+/-! ## `Len()` of the json `Document` OBJECT after any history (carry-over through the C11 bridge) -/
+namespace Props.C14
+section document
+open JsonScan DocCursor
+
+/-- after ANY history of `NextLexeme` / `Check` / `Len` calls, `Len()` of the document answers what the whole-text model
+`lengthS` answers on its text (`lenOfS`: the value, or the error with code 301 / 303 and the same index) - both modes -/
+theorem C14_document_len_is_whole_text_model (t : List UInt8) (o : Bool) (ops : List Op) :
+    (((Doc.new t o).run ops).2.step .len).1 = .len (DocCorollaries.lenOfS (lengthS o t)) :=
+  DocCorollaries.len_after_lengthS t o ops
+
+/-- `C14_json_len` on the object: a document (trailing characters allowed) whose text is blanks, a valid JSON tree with any
+layout, blanks, a foreign byte that cannot continue the value, anything - after ANY history `Len()` answers
+`|ws0| + |render v|` -/
+theorem C14_document_len_history_free (v : JA) (hv : v.Valid) (ws0 w : List Cls) (h0 : IsWs ws0) (hw : IsWs w)
+    (x : Cls) (rest : List Cls) (hx : ∀ st, PV st = true → CannotContinue st x)
+    (bs : List UInt8) (hbs : bs.map classify = ws0 ++ (v.render ++ (w ++ x :: rest))) (ops : List Op) :
+    (((Doc.new bs true).run ops).2.step .len).1 = .len (.ok (ws0.length + v.render.length)) := by
+  rw [C14_document_len_is_whole_text_model, C14_json_len v hv ws0 w h0 hw x rest hx bs hbs]; rfl
+
+/-- `C14_len_error` on the object: an error of the scanner is the error of `Len()` after any history -/
+theorem C14_document_len_error (bs : List UInt8) (e : ErrS) (h : events true bs = .error e) (ops : List Op) :
+    (((Doc.new bs true).run ops).2.step .len).1 = .len (DocCorollaries.lenOfS (.error e)) := by
+  rw [C14_document_len_is_whole_text_model, C14_len_error bs e h]
+
+/-- non-vacuity: ` [1] x` = blank, the array `[1]`, blank, foreign `x`; hypotheses met, and the concrete history -/
+example : (((Doc.new [32, 91, 49, 93, 32, 120] true).run [.next, .next, .check, .next]).2.step .len).1 = .len (.ok 4) :=
+  C14_document_len_history_free (.arr [] [([], .scalar [.d19], [])])
+    (by
+      have n1 : IsScalar [.d19] := ⟨.d19, [], .d1, false, .d1, rfl, rfl, rfl, rfl⟩
+      simp [JA.Valid, ValidItems, IsWs, n1])
+    [.sp] [.sp] (by simp [IsWs, Cls.isWs]) (by simp [IsWs, Cls.isWs]) .other [] foreign_other
+    [32, 91, 49, 93, 32, 120] (by decide) [.next, .next, .check, .next]
+example : ((Doc.new [32, 91, 49, 93, 32, 120] true).run [.next, .next, .check, .next, .len, .len]).1 =
+    [.next (.lex ⟨.arrB, 1, 1⟩), .next (.lex ⟨.itemB, 2, 2⟩), .check .ok, .next (.lex ⟨.arrB, 1, 1⟩),
+     .len (.ok 4), .len (.ok 4)] := by decide
+/-- the error side: `{"a": x` -/
+example : (((Doc.new (s "{\"a\": x") true).run [.next, .check]).2.step .len).1 = .len (.err 301 6) := by decide
+
+end document
+end Props.C14
+
+#print axioms Props.C14.C14_document_len_is_whole_text_model
+#print axioms Props.C14.C14_document_len_history_free
+#print axioms Props.C14.C14_document_len_error
